@@ -29,10 +29,12 @@ def variants(base):
             out.append((differ, raw[:i] + raw[i + 1:]))
             out.append((differ, raw[:i] + [(k + 'x', v)] + raw[i + 1:]))
     out.append((differ, raw + [('extra', '1')]))
-    for hk in ('a_hash', 'b_hash'):          # an expected hash is an effective parameter: its presence and its value change the validator
-        if hk not in dict(raw):
-            out.append((differ, raw + [(hk, 'e3b0c44298fc1c149afbf4c8996fb92427ae41e4649b934ca495991b7852b855')]))
-            out.append((differ, raw + [(hk, '')]))
+    import hashlib
+    for hk, url, body in (('a_hash', A, sc.HTML_A), ('b_hash', B, sc.HTML_B)):
+        # an expected hash is an effective parameter: its presence changes the validator.  The CORRECT digest is used so that the
+        # request succeeds (an error response carries no validator to compare)
+        if hk not in dict(raw) and dict(raw).get(hk[0]) == url:
+            out.append((differ, raw + [(hk, hashlib.sha256(body).hexdigest())]))
     out.append((differ, raw + [('extra', '')]))
     # swapped URLs, swapped order of parameters
     sw = [(k, (dict(raw)['b'] if k == 'a' else dict(raw)['a'] if k == 'b' else v)) for k, v in raw]
